@@ -17,7 +17,7 @@ class Query:
     def __init__(s, name, harness, mode='seq', defs=None, srcs=(), T=2, K=4, unwind=8, unwindset=None, opt='O1',
                  shift_check=False, spin=None, tiers=('quick', 'thorough'), timeout=300, mem_gb=16, solver='default',
                  object_bits=None, validate=20, note='', threads_tls=None, cxxflags=(), expect_known=None,
-                 extra_cbmc=(), hook=True, depth=None, unwind_fn=None, coro_style='goto', atomic_fn=None, abort_fn=None, crosscheck=1):
+                 extra_cbmc=(), hook=True, depth=None, unwind_fn=None, coro_style='goto', atomic_fn=None, abort_fn=None, crosscheck=1, fine_fn=None):
         s.name = name; s.harness = harness; s.mode = mode; s.defs = dict(defs or {}); s.srcs = list(srcs)
         s.T = T; s.K = K; s.unwind = unwind; s.unwindset = dict(unwindset or {}); s.opt = opt
         s.shift_check = shift_check; s.spin = dict(spin or {}); s.tiers = tiers; s.timeout = timeout
@@ -26,12 +26,13 @@ class Query:
         s.extra_cbmc = list(extra_cbmc); s.hook = hook; s.depth = depth
         s.coro_style = coro_style            # 'guard': clones re-walk their CFG with execution switched off; 'goto': clones jump to the resume label
         s.crosscheck = crosscheck            # number of recorded native runs of the generated C that cbmc must reproduce
+        s.fine_fn = fine_fn                  # regex: functions whose plain loads/stores are context-switch points too
         s.abort_fn = abort_fn                # regex: functions declared unreachable for this query (reaching one is a reported failure)
         s.atomic_fn = atomic_fn              # regex: calls to these yield-capable functions are executed without preemption
         s.unwind_fn = dict(unwind_fn or {})   # {regex over loop id (function.N): bound}: resolved to --unwindset via cbmc --show-loops
     def bounds(s):
         b = {'mode': s.mode, 'declared_unreachable': s.abort_fn, 'unwind': s.unwind, 'unwindset': s.unwindset, 'unwind_by_function': s.unwind_fn, 'defines': s.defs, 'ir_opt': s.opt}
-        if s.mode == 'coro': b.update(coroutine_encoding=s.coro_style, threads=s.T, segments_K=s.K, context_switches_max=s.K - 1, spin_cut=s.spin, run_without_preemption=s.atomic_fn)
+        if s.mode == 'coro': b.update(coroutine_encoding=s.coro_style, threads=s.T, segments_K=s.K, context_switches_max=s.K - 1, spin_cut=s.spin, run_without_preemption=s.atomic_fn, fine_grained_functions=s.fine_fn)
         return b
 
 def run(cmd, cwd=None, timeout=None, env=None, mem_gb=None, stdout=subprocess.PIPE, stderr=subprocess.STDOUT):
@@ -102,6 +103,7 @@ def translate(q, ll, wd, roots):
     if q.shift_check: cmd.append('--shift-check')
     if q.atomic_fn: cmd += ['--atomic', q.atomic_fn]
     if q.abort_fn: cmd += ['--abort-fn', q.abort_fn]
+    if q.fine_fn: cmd += ['--fine', q.fine_fn]
     for rx, U in q.spin.items(): cmd += ['--spin', '%s=%d' % (rx, U)]
     rc, o, _ = run(cmd, cwd=wd, timeout=600)
     if rc != 0: raise Broken('ir2c failed: ' + o[-3000:])
